@@ -14,10 +14,11 @@ CODE_FIXDEAD = True     # stabilize falls back to the nearest live finger / pred
 # quick tier: each ring property replays the coverage-goal witnesses closest to it (thorough: every property replays all of them)
 _DATA = ["join-granted-with-keys", "leave-transfer-with-keys", "leave2-selffirst-refused-not-predecessor-with-keys-stale-read",
          "leave1-succfirst-refused-not-predecessor-with-keys-stale-read", "join-refused-pred-unsettled",
-         "leave-own-successor-with-predecessor-with-keys"]
+         "leave-own-successor-with-predecessor-with-keys", "join-refused-wrong-successor-with-keys"]
 QUICK_GOALS = {
     "C03": _DATA,
-    "C04": ["join-granted-with-keys", "leave-transfer-with-keys", "leave1-succfirst-refused-not-predecessor-with-keys-stale-read"],
+    "C04": ["join-granted-with-keys", "leave-transfer-with-keys", "leave1-succfirst-refused-not-predecessor-with-keys-stale-read",
+            "join-refused-wrong-successor-with-keys"],
     "C05": _DATA + ["checkpred-cleared"],
     "C06": [g for g in ringlib.GOALS if g in ringlib.GOAL_AT and (g.startswith("leave") or g.startswith("join-refused"))],
     "C08": ["join-refused-busy", "join-refused-pred-unsettled", "join-granted-with-keys", "checkpred-cleared", "leave-no-neighbour"],
@@ -57,6 +58,8 @@ def engine(ck, pid, kinds, n_quick=40, n_thorough=400, gen_kw=None, mc=True):
         if wit:
             _judge(ck, pid, kinds, binary, wit, "goal-witness")
         ck.extra["goal_witnesses_replayed"] = len(wit)
+    # (A3) directed: the lock word of a node read by two membership operations before either writes it
+    _judge(ck, pid, kinds, binary, [ringlib.lock_word_race()], "directed")
     # (B/C) seeded controlled schedules
     n = n_thorough if ck.thorough else n_quick
     import random as _random
